@@ -404,8 +404,13 @@ def qu_signature(zc, data, port, now, shadow):
                     # "not multicast within a quarter of its TTL" is decided from the arrival history kept by the harness,
                     # *not* from the implementation's cache: a defect that makes the cache forget (wrong TTL on refresh, a
                     # record stored under another identity) must not move the delivery into the recorded finding's class
-                    # (the cache's answer, read without the scope id an IPv6 socket adds to a heard address record)
-                    impl_recent = any(ident(e) == ident(rec) and e.is_recent(now) for e in zc.cache.async_all_by_details(rec.name, rec.type, rec.class_))
+                    # (the cache's answer; for an IPv6 address read without the scope id an IPv6 socket adds to the heard record --
+                    # an IPv4 address has no scope: it must be in the cache under its own identity)
+                    if rec.type == 28:
+                        impl_recent = any(ident(e) == ident(rec) and e.is_recent(now) for e in zc.cache.async_all_by_details(rec.name, rec.type, rec.class_))
+                    else:
+                        e = zc.cache.async_get_unique(rec)
+                        impl_recent = e is not None and e.is_recent(now)
                     mine = shadow_recent(shadow, rec, now)
                     if mine is None:
                         mine = impl_recent      # (either answer is right there: take the implementation's)
@@ -516,8 +521,12 @@ def simulate(case, dupmask, skip_d11=False):
                     i = ids.setdefault(r, len(ids))
                     # the cache entry of this record: the one heard last among those that are this record but for the scope id an
                     # IPv6 socket adds to heard addresses (read here, from the whole list -- not through the responder's own look-up)
-                    same = [x for x in self.cache.async_all_by_details(r.name, r.type, r.class_) if ident(x) == ident(r)]
-                    e = max(same, key=lambda x: x.created) if same else None
+                    # (IPv6 addresses only: an IPv4 address has no scope and is looked up as it is)
+                    if r.type == 28:
+                        same = [x for x in self.cache.async_all_by_details(r.name, r.type, r.class_) if ident(x) == ident(r)]
+                        e = max(same, key=lambda x: x.created) if same else None
+                    else:
+                        e = self.cache.async_get_unique(r)
                     al.append([i, None if e is None else [int(e.created) - vsim.T0, int(e.ttl)]])
                 strats.append([unique, al])
             q0 = msgs[0]._questions
